@@ -335,6 +335,9 @@ jose_jwe_enc_cek_io(jose_cfg_t *cfg, json_t *jwe, const json_t *cek,
         return NULL;
 
     prt = jose_b64_dec_load(json_object_get(jwe, "protected"));
+    if (!prt && json_is_string(json_object_get(jwe, "protected")))
+        return NULL;
+
     (void) json_unpack(prt, "{s:s}", "zip", &hzip);
 
     enc = alg->encr.enc(alg, cfg, jwe, cek, next);
@@ -490,6 +493,9 @@ jose_jwe_dec_cek_io(jose_cfg_t *cfg, const json_t *jwe, const json_t *cek,
     const char *hzip = NULL;
 
     prt = jose_b64_dec_load(json_object_get(jwe, "protected"));
+    if (!prt && json_is_string(json_object_get(jwe, "protected")))
+        return NULL;
+
     (void) json_unpack(prt, "{s:s}", "zip", &hzip);
 
     hdr = jose_jwe_hdr(jwe, NULL);
